@@ -216,7 +216,11 @@ def show(t):
     if k == "trunc":
         return "trunc%d(%s)" % (t[1], show(t[2]))
     if k == "call":
-        return "%s(%s)#%d" % (t[1], ", ".join(show(a) for a in t[2]), t[3])
+        if isinstance(t[2], tuple) and (not t[2] or isinstance(t[2][0], tuple)):
+            return "%s(%s)#%s" % (t[1], ", ".join(show(a) for a in t[2]), t[3])
+        return "%s()" % t[1]
+    if k == "hdr":
+        return "header[%s]" % show(t[1])
     return repr(t)
 
 
